@@ -2,7 +2,7 @@
 import io
 
 from .. import common, observe, pdbgen
-from ..dets_common import enc_group, hx
+from ..dets_common import partner, enc_group, hx
 
 SPEC = dict(
     claim="Lean theorems: (topping-up) every atom offered whose residue label a conformation lacks is copied unless its (chain, number) "
@@ -124,6 +124,14 @@ def gen_inputs(ctx):
         lines = pdbgen.relabel(lines, chain="A")
         if rnd.random() < 0.6:
             lines = pdbgen.add_oxt(lines)
+        if i % 4 >= 2:
+            # two ions of one kind next to an acid: partners that share a printed label and differ in residue number
+            for _ in range(20):
+                li = pdbgen.add_ions(rnd, lines, 2, rnd.choice(["CA", "MG", "ZN"]))
+                if li is not None:
+                    lines = li
+                    break
+                lines = pdbgen.relabel(pdbgen.fragment(rnd, nres=rnd.randint(3, 9)), chain="A")
         if i % 3 == 0:
             kind = (i // 3) % 5          # every kind of alternate, the isosteric mutants included, in every tier
             for _ in range(30):
@@ -148,7 +156,7 @@ def find_in(conf, g):
 def psum(dets):
     out = {}
     for d in dets:
-        out[d.group.label] = out.get(d.group.label, 0.0) + d.value
+        out[partner(d.group)] = out.get(partner(d.group), 0.0) + d.value
     return out
 
 
